@@ -21,7 +21,7 @@ partial def toEvents (be : Option Backend) : List Line → List (Option Ev × St
     let push (e : Ev) := toEvents be rest ((some e, l.raw) :: acc)
     let bad (_ : Unit) := toEvents be rest ((none, l.raw) :: acc)
     match l.site with
-    | "dq.pt" | "dq.op" | "drain" | "drainr" => toEvents be rest acc
+    | "dq.pt" | "dq.op" | "dq.tags" | "drain" | "drainr" => toEvents be rest acc
     | "inv.pushl" => push (.inv t true false l.a.toNat)
     | "inv.pushr" => push (.inv t true true l.a.toNat)
     | "inv.popl" => push (.inv t false false 0)
@@ -52,13 +52,29 @@ partial def toEvents (be : Option Backend) : List Line → List (Option Ev × St
     | "done" => push (.done t)
     | _ => bad ()
 
-def accept (s : St) : List (Option Ev × String) → Nat → Except (Nat × String) St
+/-- `fx`: tagging discipline of the code that produced the log (`Deque.stepG`): the repaired
+    `alloc_node` logs a `dq.tags` line, the pinned tree's does not. -/
+def accept (fx : Bool) (s : St) : List (Option Ev × String) → Nat → Except (Nat × String) St
   | [], _ => .ok s
   | (none, raw) :: _, i => .error (i, "unparsed: " ++ raw)
   | (some e, raw) :: rest, i =>
-    match step s e with
-    | some s' => accept s' rest (i + 1)
+    match stepG fx s e with
+    | some s' => accept fx s' rest (i + 1)
     | none => .error (i, raw)
+
+/-- independent check of the repaired discipline on the raw log: the tags `alloc_node` gives to a
+    node (line `dq.tags`, obj = node) grow strictly from one allocation of that node to the next -/
+def tagMonitor (ls : List Line) : List String :=
+  let step (acc : List (Nat × Int × Int) × List String) (l : Line) : List (Nat × Int × Int) × List String :=
+    if l.site == "dq.tags" then
+      match acc.1.find? (fun e => e.1 == l.obj) with
+      | some (_, lt, rt) =>
+        let acc1 := (l.obj, l.a, l.b) :: acc.1.filter (fun e => e.1 != l.obj)
+        if l.a > lt && l.b > rt then (acc1, acc.2)
+        else (acc1, s!"alloc_node gave node {l.obj} the link tags ({l.a},{l.b}) after ({lt},{rt}): tags did not grow across recycling" :: acc.2)
+      | none => ((l.obj, l.a, l.b) :: acc.1, acc.2)
+    else acc
+  (ls.foldl step ([], [])).2.reverse
 
 /-! Independent monitors on the raw event list (tests, not proofs): bag accounting of values,
     sequential reference for single-threaded cases, adapter end check, quiescent-pop check. -/
@@ -187,14 +203,15 @@ def runCase (c : Case) : String :=
   let parsed := c.lines.map parseLine
   if parsed.any Option.isNone then s!"case {c.id} reject 0 malformed-line" else
   let ls := parsed.filterMap id
-  let mon := monitors c ls n
+  let fx := ls.any (fun l => l.site == "dq.tags")
+  let mon := monitors c ls n ++ tagMonitor ls
   let monS := if mon.isEmpty then "monitors ok" else "monitors FAIL: " ++ " | ".intercalate mon
   if kind == "fifo" then
     -- third-party queue: conformance to the FIFO/bag specification is tested by the monitors only
     s!"case {c.id} accept 0 ; final fifo-spec ; {monS}"
   else
   let evs := toEvents (backendOf kind) ls []
-  match accept (Deque.init n) evs 0 with
+  match accept fx (Deque.init n) evs 0 with
   | .error (i, raw) => s!"case {c.id} reject {i} [{raw}] ; {monS}"
   | .ok s =>
     let drained := ls.filterMap (fun l => if l.site == "drain" then some l.a.toNat else none)
@@ -208,7 +225,7 @@ def runCase (c : Case) : String :=
           "final MISMATCH: run ended but model threads are not finished"
         else if expect != drained then
           s!"final MISMATCH: drained {drained} but the model's chain holds {contents s}"
-        else s!"final ok len={s.chain.length} stale={s.stale}"
+        else s!"final ok len={s.chain.length} stale={s.stale} tags={if fx then "keep" else "reset"}"
       else s!"final status {c.status}"
     s!"case {c.id} accept {evs.length} ; {fin} ; {monS}"
 
